@@ -381,7 +381,10 @@ def worldOp1 (st : Option World) (op : String) (args tr : List String) : Option 
           String.join ((List.range 256).map fun i =>
             if (slotOf s i).rq = some o then s!" fwd:{bytesStr s.conf.name}:{i}:{toHex (((getRq w o).bind (·.buf)).getD [])}" else ""))
         let (w, s) := tail w
-        (some (udpLoopTop w), s!"udp ret={ret} created=0 c{ci}" ++ fwd ++ s)
+        let blk := match getCli w ci with
+          | some c => (match w.cliConfs[c.conf]? with | some cc => bytesStr cc.name | none => "-")
+          | none => "-"
+        (some (udpLoopTop w), s!"udp ret={ret} created=0 c{ci} blk:{blk}" ++ fwd ++ s)
     | _, _ => (some w, "bad-op")
   | _, _, st => (st, "bad-op")
 
